@@ -84,3 +84,122 @@ def impl_load_legacy_images(case):
 def impl_load_rpms(case):
     from suites.docs_manifests import impl_load
     return impl_load(case)
+
+
+# ---------------- composeinfo down-conversion (from a current-version document written by the library)
+def down_composeinfo(doc, version):
+    d = copy.deepcopy(doc)
+    vt = tuple(int(x) for x in version.split("."))
+    d["header"]["version"] = version
+    if vt < (1, 1):
+        d["header"].pop("type", None)
+    p = d["payload"]
+    if vt < (1, 0):
+        for uid, v in p["variants"].items():
+            v.pop("variants", None)                  # parent/child related only by UID prefix
+    if vt <= (0, 3):
+        rel = p.pop("release")
+        rel.pop("internal", None)
+        p["product"] = rel
+        for uid, v in p["variants"].items():
+            if "release" in v:
+                r = v.pop("release")
+                r.pop("internal", None)
+                v["product"] = r
+    if vt < (0, 3):
+        p["compose"].pop("date", None)               # date / type / respin derivable only from the id
+        p["compose"].pop("respin", None)
+    return d
+
+
+def forget_composeinfo(desc, version):
+    """what the documented mapping keeps of a description when it goes through format `version`"""
+    vt = tuple(int(x) for x in version.split("."))
+    comp, rel, bp, tops = copy.deepcopy(desc)
+    if vt <= (0, 3):
+        rel["internal"] = False
+
+        def tree(t):
+            if t[0]["type"] == "layered-product":
+                t[2]["internal"] = False
+            for c in t[3].values():
+                tree(c)
+        for t in tops.values():
+            tree(t)
+    return [comp, rel, bp, tops]
+
+
+# ---------------- treeinfo down-conversion (text level)
+def down_treeinfo_table(table, version):
+    t = copy.deepcopy(table)
+    t["header"]["version"] = version
+    if tuple(int(x) for x in version.split(".")) < (1, 1):
+        t["header"].pop("type", None)
+    return t
+
+
+def fixtures():
+    import glob
+    import os
+    root = "/repo/tests"
+    out = []
+    for p in sorted(glob.glob(os.path.join(root, "treeinfo", "*"))):
+        out.append({"fmt": "treeinfo", "path": p})
+    for p in sorted(glob.glob(os.path.join(root, "discinfo", "*"))):
+        out.append({"fmt": "discinfo", "path": p})
+    for p in sorted(glob.glob(os.path.join(root, "images", "*.json"))):
+        out.append({"fmt": "images", "path": p})
+    for p in sorted(glob.glob(os.path.join(root, "compose*", "**", "composeinfo.json"), recursive=True)):
+        out.append({"fmt": "composeinfo", "path": p})
+    for p in sorted(glob.glob(os.path.join(root, "compose*", "**", "*.json"), recursive=True)):
+        b = os.path.basename(p)
+        if b in ("rpms.json", "rpm-manifest.json"):
+            out.append({"fmt": "rpms", "path": p})
+        if b in ("images.json", "image-manifest.json"):
+            out.append({"fmt": "images", "path": p})
+        if b == "modules.json":
+            out.append({"fmt": "modules", "path": p})
+    return out
+
+
+def _cls(fmt):
+    import productmd.treeinfo, productmd.discinfo, productmd.images, productmd.composeinfo, productmd.rpms, productmd.modules, productmd.extra_files
+    return {"treeinfo": productmd.treeinfo.TreeInfo, "discinfo": productmd.discinfo.DiscInfo, "images": productmd.images.Images,
+            "composeinfo": productmd.composeinfo.ComposeInfo, "rpms": productmd.rpms.Rpms, "modules": productmd.modules.Modules,
+            "extra": productmd.extra_files.ExtraFiles}[fmt]
+
+
+def impl_upgrade(case):
+    """load an older-format document (from a path or from text), write it, re-load the written file, write again"""
+    import json
+    cls = _cls(case["fmt"])
+    o = cls()
+    try:
+        if "path" in case:
+            o.load(case["path"])
+        else:
+            o.loads(case["text"])
+    except Exception as e:
+        return ["load-err", type(e).__name__]
+    try:
+        t1 = o.dumps()
+    except Exception as e:
+        return ["dump-err", type(e).__name__]
+    o2 = cls()
+    try:
+        o2.loads(t1)
+        t2 = o2.dumps()
+    except Exception as e:
+        return ["reload-err", type(e).__name__, t1[:200]]
+    header = None
+    if case["fmt"] == "treeinfo":
+        import re as _re
+        m = _re.search(r"\[header\]\n((?:.+\n)+)", t1)
+        header = dict(l.split(" = ", 1) for l in m.group(1).strip().split("\n")) if m else None
+    elif case["fmt"] != "discinfo":
+        header = json.loads(t1)["header"]
+    desc = None
+    if case["fmt"] == "composeinfo":
+        from suites.docs_composeinfo import describe
+        desc = describe(o)
+    return ["ok", t1 == t2, header, desc, t1]
